@@ -351,3 +351,47 @@ pub fn cold_start(cx: &mut Cx) {
     });
     cx.run();
 }
+
+/// C12: four issuers (different keys, both suites) serving update requests AT THE SAME TIME, 24
+/// each; every updated signature must verify for the vector it was made for and must not verify
+/// for the previous one.
+pub fn update_burst(cx: &mut Cx) {
+    let nodes = burst_nodes(cx, 4);
+    let seed = cx.run_seed;
+    cx.count("probe.concurrent_update_requests");
+    let same_suite = cx.ch.chance("burst_same_suite", 1, 2);
+    let steps: Vec<(NodeId, Box<dyn FnOnce() -> Vec<String> + Send>)> = nodes.iter().enumerate().map(|(i, &n)| {
+        let suite = Suite::from_idx(if same_suite { 0 } else { i as u64 });
+        let f: Box<dyn FnOnce() -> Vec<String> + Send> = Box::new(move || {
+            let mut bad = Vec::new();
+            let r: Result<(), String> = (|| {
+                let (sk, pk) = api::keygen(suite, &bytes_for(seed, b"ub-ikm", i as u64, 32), None, None)?;
+                let mut msgs: Vec<Bytes> = (0..3).map(|j| bytes_for(seed, b"ub-m", (i * 10 + j) as u64, 6)).collect();
+                let hd = Some(b"ub".to_vec());
+                let mut sig = api::sign(suite, &sk, &pk, &hd, &Some(msgs.clone()))?;
+                for k in 0..24usize {
+                    let pos = k % 3;
+                    let new = bytes_for(seed, b"ub-new", (i * 100 + k) as u64, 5 + k % 4);
+                    let up = match api::update(suite, &sk, &sig, &msgs[pos], &new, pos, 3) { Ok(u) => u, Err(e) => { bad.push(format!("update {k}: refused: {e}")); continue; } };
+                    let prev = msgs.clone();
+                    msgs[pos] = new;
+                    if !api::verify(suite, &pk, &up, &hd, &Some(msgs.clone())).accepted() { bad.push(format!("update {k}: the updated signature does not verify for the current vector")); }
+                    if api::verify(suite, &pk, &up, &hd, &Some(prev)).accepted() { bad.push(format!("update {k}: the updated signature still verifies for the previous vector")); }
+                    sig = up;
+                }
+                Ok(())
+            })();
+            if let Err(e) = r { bad.push(e); }
+            bad
+        });
+        (n, f)
+    }).collect();
+    cx.burst(steps, "24 updates each", move |cx, outs| {
+        for (i, st) in outs.into_iter().enumerate() {
+            cx.eval(&[b"update-burst", &(i as u64).to_le_bytes(), &seed.to_le_bytes()], true);
+            cx.count("fault.concurrent_calls");
+            match st.out { Ok(bad) if bad.is_empty() => cx.count("verdict.MustAccept.accept"), other => cx.violation("C12", "concurrent/update-results-wrong".into(), format!("issuer {i} of 4 serving 24 updates while the others do the same: {:?}", other.map(|b| b.into_iter().take(3).collect::<Vec<_>>()))) }
+        }
+    });
+    cx.run();
+}
